@@ -644,6 +644,45 @@ func run(r *eng.Runner) {
 		for i := range cases {
 			r.Do(&cases[i])
 		}
+		// every distribution of three blocks over a 3-level chain (the base defines all, the middle template and the
+		// leaf any subset) x every non-empty set of requested blocks, in both orders
+		names := []string{"note", "title", "foot"}
+		for midMask := 0; midMask < 8; midMask++ {
+			for leafMask := 0; leafMask < 8; leafMask++ {
+				mid, leaf := `{% extends "base" %}`, `{% extends "mid" %}`
+				want := map[string]string{"note": "N0", "title": "T0", "foot": "F0"}
+				for i, n := range names {
+					if midMask&(1<<i) != 0 {
+						mid += "{% block " + n + " %}M" + n + "{% endblock %}"
+						want[n] = "M" + n
+					}
+				}
+				for i, n := range names {
+					if leafMask&(1<<i) != 0 {
+						leaf += "{% block " + n + " %}L" + n + "{% endblock %}"
+						want[n] = "L" + n
+					}
+				}
+				for req := 1; req < 8; req++ {
+					var asked []string
+					w := map[string]string{}
+					for i, n := range names {
+						if req&(1<<i) != 0 {
+							asked = append(asked, n)
+							w[n] = want[n]
+						}
+					}
+					r.Do(&BlocksCase{Label: fmt.Sprintf("distribution-%d-%d", midMask, leafMask), Leaf: "/leaf", Blocks: asked, Want: w, Files: map[string]string{"/base": base3, "/mid": mid, "/leaf": leaf}})
+					if len(asked) > 1 {
+						rev := append([]string{}, asked...)
+						for a, b := 0, len(rev)-1; a < b; a, b = a+1, b-1 {
+							rev[a], rev[b] = rev[b], rev[a]
+						}
+						r.Do(&BlocksCase{Label: fmt.Sprintf("distribution-%d-%d", midMask, leafMask), Leaf: "/leaf", Blocks: rev, Want: w, Files: map[string]string{"/base": base3, "/mid": mid, "/leaf": leaf}})
+					}
+				}
+			}
+		}
 	}
 
 	r.Group("super-context", "c10.superctx", "a middle definition that uses block.Super inside / after constructs that change what the parent's definition sees (autoescape on/off, set before Super, with, for, if, macro, nested blocks), wrapped 1..3 times by definitions that only print [Super]: every wrapped rendering equals the middle template's own rendering in brackets")
